@@ -273,7 +273,16 @@ func checkC11(w *World) {
 			}
 			if ex, ok := keyV.(*ssa.Extract); ok {
 				if c, ok := ex.Tuple.(*ssa.Call); ok && staticCallee(c) != nil && staticCallee(c).Name() == "GetQName" && len(c.Call.Args) == 2 {
-					keyOrigin = "GetQName(" + qnameTextOrigin(c.Call.Args[0]) + "," + settingsFieldName(c.Call.Args[1]) + ")"
+					text := c.Call.Args[0]
+					// the helper resolves the name itself: the text it is given at its call in the handler
+					if p, isP := text.(*ssa.Parameter); isP && lookupCall != nil && p.Parent() == lookupFn {
+						for i, x := range lookupFn.Params {
+							if x == p && i < len(lookupCall.Call.Args) {
+								text = lookupCall.Call.Args[i]
+							}
+						}
+					}
+					keyOrigin = "GetQName(" + qnameTextOrigin(text) + "," + settingsFieldName(c.Call.Args[1]) + ")"
 				}
 			}
 			w.check(P, "R11.1", "function name resolution", userL.Pos(), sameKey && keyOrigin == "GetQName(child#0,NamespaceDecls)", fmt.Sprintf("both tables are keyed by the same expanded name: %v; key = %s (must be GetQName(text of NT child 0, NamespaceDecls))", sameKey, keyOrigin))
@@ -299,8 +308,19 @@ func checkC11(w *World) {
 						if !ok || len(ret.Results) == 0 {
 							return
 						}
+						// the result that is a function value (the helper may hand back the name and an error too);
+						// error returns hand back no function
+						if len(ret.Results) > 1 && !isNilConst(ret.Results[len(ret.Results)-1]) {
+							return
+						}
+						fi := 0
+						for i, rv := range ret.Results {
+							if _, isSig := rv.Type().Underlying().(*types.Signature); isSig {
+								fi = i
+							}
+						}
 						nret++
-						if !sliceContains(ret.Results[0], func(v ssa.Value) bool { return v == ssa.Value(userL) || v == ssa.Value(builtinL) }) {
+						if !sliceContains(ret.Results[fi], func(v ssa.Value) bool { return v == ssa.Value(userL) || v == ssa.Value(builtinL) }) {
 							onlyLookups = false
 						}
 					})
